@@ -26,9 +26,12 @@ RULE = ("each base model x each transformation T1..T7 at every position; comment
         "component membership. Non-trivial = transformed text that differs from the base text.")
 ASSUMPTIONS = ["comment strings longer than the bound are not explored", "hang verdict = 300x the normal load time, re-run alone"]
 ITEM_BUDGET_S = 1800
-TOKENS = ["mV", "ms", "1", "2", "9", "x", "a", "=", "/", "*", "**", "-", "(", ")", "'", '"', "#", " ", "\t", ""]
+TOKENS = ["mV", "ms", "1", "2", "9", "x", "a", "=", "/", "*", "**", "-", "(", ")", "'", '"', "#", " ", "\t", "",
+          # characters that some line-splitting / whitespace rules treat as separators
+          "\x0c", "\x0b", "\x1c", "\x85", "\u2028", "\u2029", "\xa0", "\r"]
 TEXTS = ["", " ", "plain words", "mV", " mV", "ms**-1", "1", "1/0", "(", ")", "-", "mV/", "x = 1", "a = 3", "dx_dt = 0", "states(z=1)", "#", "## double",
          'a "quoted" word', "it's", "mV # and more", "9**9**9", "expressions(\"B\")", "Conditional(", "pi", "e", "1e400", "dimensionless", "\t tab",
+         "page\x0cbreak", "previously:\u2028i_old = 2", "vt\x0bk = 1", "nel\x85x = 3", "fs\x1cq = 1", "ps\u2029states(z=1)", "cr\ronly", "nbsp\xa0text", "bom\ufefftext", "emoji \U0001F600", "tab\tk = 1",
          "2 ms", "0.5", "100 mV", "5 / ms", "-1", "1.5e-3 mV", "mV ms", "3 mV**2", "percent", "%", "degC", "1/ms", "ms^-1", "[mV]", "kg*m/s**2", "mol/L"]
 
 BASES = {
